@@ -1,3 +1,3 @@
 INIT Init
 NEXT Next
-INVARIANTS C08_OnlyFresh C08_OwnToken C08_RegisterOnly205_203 C08_SilentAfterCancel C08_NoHang K08_Conforms
+INVARIANTS C08_OnlyFresh C08_OwnToken C08_RegisterOnly205_203 C08_SilentAfterCancel C08_NoHang C08_StressNoRedelivery K08_Conforms
